@@ -283,8 +283,9 @@ class Ctx:
             else:
                 known_hit.setdefault(k["sig"], [k, 0])
                 known_hit[k["sig"]][1] += 1
-        for sig, (k, n) in sorted(known_hit.items()):
-            log("KNOWN-FINDING: property=%s sig=%s (%d occurrences) %s" % (self.prop, sig, n, k["text"]))
+        for k in self.known:
+            n = known_hit.get(k["sig"], [k, 0])[1]
+            log("KNOWN-FINDING: property=%s sig=%s (%d occurrences in this run) %s" % (self.prop, k["sig"], n, k["text"]))
         replay_paths = []
         by_sig = {}
         for v in fresh:
